@@ -62,3 +62,64 @@ class Expiry(PipelineBase):
                     *( [z3.Or(g['inner_exp'].f[0].z()-g['now1'].f[0].z()>100,g['now1'].f[0].z()-g['inner_exp'].f[0].z()>100),g['inner_exp'].f[0].z()>0,g['inner_exp'].f[0].z()<4000000000,g['now1'].f[0].z()-g['now0'].f[0].z()<5] if self.sub else [])))
             if r==z3.sat: rec['sample']={'scenario':mk(m),'expect':'ok' if oc=='ok' else 'err'}
         return rec
+
+class ParseInstant(Obligation):
+    """`layout::parse_datetime` (private; addressed by name in the MIR): the instant read from an RFC 3339 text
+    equals wall-clock fields minus UTC offset, for every offset notation; and parse(format(t)) = t to the second."""
+    name='C06.parse_datetime'
+    def __init__(self,seed=0,known=(),**kw):
+        self.seed=seed
+        self.bounds={'wall_clock_fields':'any i64 second count within chrono\'s range (|secs| < 2^40 assumed)','utc_offset':'any whole-minute offset in (-24h,+24h) (RFC 3339 offsets are hh:mm)','fraction':'any nanoseconds < 1e9',
+                     'text':'carried as a ghost string: chrono\'s text parser itself is a dependency model validated natively on boundary samples'}
+        self.witnesses=['parse_positive_offset','parse_negative_offset','roundtrip']
+        self.seen=set()
+    def setup(self,eng,tier):
+        self.eng=eng; self.b=B(eng)
+        self.parse=eng.find_fn('parse_datetime'); self.fmt=eng.find_fn('format_datetime')
+        def both(run,args):
+            mode=args[0]
+            if mode=='parse': return eng.call_fn(run,self.parse,[args[1]])
+            s=eng.call_fn(run,self.fmt,[Ref(Cell(args[1]))])
+            return eng.call_fn(run,self.parse,[Ref(Cell(Str(s.b,True,s.taint,s.ghost)))])
+        self.both=both
+    def entry(self,eng): return self.both
+    def mk_args(self,run):
+        mode=['parse','roundtrip'][run.pick(2,'mode')]
+        if mode=='parse':
+            loc=z3.BitVec('local_secs',64); off=z3.BitVec('offset',32); nan=z3.BitVec('nanos',32)
+            run.solver.add(off>-86400,off<86400,z3.SRem(off,60)==0,z3.ULT(nan,1000000000),loc>-(1<<40),loc<(1<<40))
+            s=Ref(Cell(Str(list(b'<rfc3339>'),True,True,{'kind':'rfc3339','local_secs':loc,'nanos':nan,'offset':off})))
+            return ['parse',s],{'mode':mode,'loc':loc,'off':off,'nan':nan}
+        t=z3.BitVec('t_secs',64); n=z3.BitVec('t_nanos',32); run.solver.add(z3.ULT(n,1000000000),t>-(1<<40),t<(1<<40))
+        return ['roundtrip',self.b.datetime(Int(64,True,t),Int(32,False,n))],{'mode':mode,'t':t,'n':n}
+    def check(self,run,out,g):
+        oc=outcome_of(out); rec={'outcome':oc,'viol':None,'wit':[],'sample':None,'obl':1}
+        def wit(name,cond):
+            if name in self.seen: return
+            r,m=run.check_sat(cond)
+            if r==z3.sat: self.seen.add(name); rec['wit'].append(name)
+        if oc!='ok':
+            r,m=run.check_sat(z3.BoolVal(True))
+            rec['viol']={'kind':'parse_failed','known_key':None,'scenario':self.scn(g,m),'predicted':oc,'what':'parse_datetime fails on a well-formed RFC 3339 text'}; return rec
+        dt=deref(out[1]).f[0]
+        if g['mode']=='parse':
+            want=g['loc']-z3.SignExt(32,g['off'])
+            r,m=run.check_sat(z3.Or(dt.f[0].z()!=want,dt.f[1].z()!=g['nan']))
+            if r==z3.sat:
+                rec['viol']={'kind':'wrong_instant','known_key':None,'scenario':self.scn(g,m),'predicted':'instant:%d'%s64(model_value(m,dt.f[0].z())),'what':'the expiry instant read from an RFC 3339 text with a UTC offset is not wall-clock minus offset'}; return rec
+            wit('parse_positive_offset',g['off']>0); wit('parse_negative_offset',g['off']<0)
+        else:
+            r,m=run.check_sat(z3.Or(dt.f[0].z()!=g['t'],dt.f[1].z()!=0))
+            if r==z3.sat:
+                rec['viol']={'kind':'roundtrip_changes_instant','known_key':None,'scenario':self.scn(g,m),'predicted':'instant:%d'%s64(model_value(m,dt.f[0].z())),'what':'parse(format(t)) differs from t truncated to whole seconds'}; return rec
+            wit('roundtrip',z3.BoolVal(True))
+        r,m=run.check_sat(z3.And(g['loc']>0,g['loc']<4000000000) if g['mode']=='parse' else z3.And(g['t']>0,g['t']<4000000000))
+        if r==z3.sat: rec['sample']={'scenario':self.scn(g,m),'expect':'instant:%d'%s64(model_value(m,dt.f[0].z()))}
+        return rec
+    def scn(self,g,m):
+        if g['mode']=='parse':
+            return {'kind':'parse_datetime','mode':'parse','local_secs':s64(model_value(m,g['loc'])),'offset':s32(model_value(m,g['off'])),'nanos':model_value(m,g['nan'])}
+        return {'kind':'parse_datetime','mode':'roundtrip','secs':s64(model_value(m,g['t'])),'nanos':model_value(m,g['n'])}
+def s64(x): return x-(1<<64) if x>>63 else x
+def s32(x): return x-(1<<32) if x>>31 else x
+from mirsym.runner import Obligation
